@@ -57,6 +57,7 @@ type Extractor struct {
 	seq         int
 	loops       map[*ssa.Function]map[*ssa.BasicBlock]bool
 	sinkOfField map[string]string     // output buffer field -> name of the sink that appends to it
+	textBuffers bool                  // some output buffer is a strings.Builder field
 	adders      map[*ssa.Function]int // methods of a buffer type that append what they are handed (1: one line, 2: a list)
 	EndSink     string                // the sink whose buffer the dump places last (end-of-script lines)
 }
@@ -176,6 +177,32 @@ func NewExtractor(w *World, role string) (*Extractor, error) {
 					if fa, ok := r.X.(*ssa.FieldAddr); ok && x.isConvPtr(fa.X.Type()) {
 						x.sinkOfField[structFieldName(fa.X.Type(), fa.Field)] = fn.Name()
 					}
+				}
+			}
+		}
+	}
+	// a buffer kept as text: the sink writes its line (and a line end) to a strings.Builder field
+	for _, fn := range w.Funcs(role) {
+		if x.Sinks[fn] || fn.Signature.Recv() == nil || !x.isConvPtr(fn.Params[0].Type()) || fn.Signature.Results().Len() != 0 || len(fn.Params) != 2 || !isString(fn.Params[1].Type()) {
+			continue
+		}
+		for _, b := range fn.Blocks {
+			for _, ins := range b.Instrs {
+				c, ok := ins.(*ssa.Call)
+				if !ok {
+					continue
+				}
+				callee := c.Call.StaticCallee()
+				if callee == nil || callee.String() != "(*strings.Builder).WriteString" || len(c.Call.Args) != 2 || c.Call.Args[1] != ssa.Value(fn.Params[1]) {
+					continue
+				}
+				if fa, ok := c.Call.Args[0].(*ssa.FieldAddr); ok && x.isConvPtr(fa.X.Type()) {
+					x.Sinks[fn] = true
+					x.textBuffers = true
+					if x.sinkOfField == nil {
+						x.sinkOfField = map[string]string{}
+					}
+					x.sinkOfField[structFieldName(fa.X.Type(), fa.Field)] = fn.Name()
 				}
 			}
 		}
@@ -667,7 +694,7 @@ func (x *Extractor) findEndSink(w *World, role string) string {
 						}
 					case *ssa.FieldAddr:
 						// a buffer of a type of its own is handed on by address
-						if x.isConvPtr(y.X.Type()) && len(x.adders) > 0 {
+						if x.isConvPtr(y.X.Type()) && (len(x.adders) > 0 || x.textBuffers) {
 							name := structFieldName(y.X.Type(), y.Field)
 							if _, isBuf := x.sinkOfField[name]; isBuf {
 								last = name
